@@ -3,102 +3,154 @@ import EmmyVerif.Model.FlowLoop
 /-! Soundness of `TypeAt` for `FL` programs whose loop bodies assign nothing (the fragment of `C41_partial`). -/
 namespace Flow
 
+variable {W : Nat → Bool} {S : List (Nat × TName)}
+
 mutual
-/-- no assignment anywhere in the statement -/
-def LStmt.noAssign : LStmt → Bool
-  | .assign _ _ => false
+/-- every variable assigned in the statement is in `W` -/
+def LStmt.assignsIn (W : Nat → Bool) : LStmt → Bool
+  | .assign x _ => W x
   | .probe _ _ => true
-  | .ite _ thn rest => thn.noAssign && rest.noAssign
-  | .whileDo _ b => b.noAssign
-  | .whileTrue b => b.noAssign
-  | .repeatUntil b _ => b.noAssign
-  | .forNum _ _ b => b.noAssign
-  | .forIn _ b => b.noAssign
+  | .ite _ thn rest => thn.assignsIn W && rest.assignsIn W
+  | .whileDo _ b => b.assignsIn W
+  | .whileTrue b => b.assignsIn W
+  | .repeatUntil b _ => b.assignsIn W
+  | .forNum _ _ b => b.assignsIn W
+  | .forIn _ b => b.assignsIn W
   | .breakIf _ => true
-def LElse.noAssign : LElse → Bool
+def LElse.assignsIn (W : Nat → Bool) : LElse → Bool
   | .none => true
-  | .els b => b.noAssign
-  | .elif _ thn rest => thn.noAssign && rest.noAssign
-def LBlock.noAssign : LBlock → Bool
+  | .els b => b.assignsIn W
+  | .elif _ thn rest => thn.assignsIn W && rest.assignsIn W
+def LBlock.assignsIn (W : Nat → Bool) : LBlock → Bool
   | .nil => true
-  | .cons s rest => s.noAssign && rest.noAssign
+  | .cons s rest => s.assignsIn W && rest.assignsIn W
 end
 
 mutual
-/-- every loop body is free of assignments (assignments outside loops are unrestricted) -/
-def LStmt.inert : LStmt → Bool
+/-- every variable assigned inside a loop body is in `W` (assignments outside loops are unrestricted) -/
+def LStmt.loopOK (W : Nat → Bool) : LStmt → Bool
   | .assign _ _ => true
   | .probe _ _ => true
-  | .ite _ thn rest => thn.inert && rest.inert
-  | .whileDo _ b => b.noAssign
-  | .whileTrue b => b.noAssign
-  | .repeatUntil b _ => b.noAssign
-  | .forNum _ _ b => b.noAssign
-  | .forIn _ b => b.noAssign
+  | .ite _ thn rest => thn.loopOK W && rest.loopOK W
+  | .whileDo _ b => b.assignsIn W
+  | .whileTrue b => b.assignsIn W
+  | .repeatUntil b _ => b.assignsIn W
+  | .forNum _ _ b => b.assignsIn W
+  | .forIn _ b => b.assignsIn W
   | .breakIf _ => true
-def LElse.inert : LElse → Bool
+def LElse.loopOK (W : Nat → Bool) : LElse → Bool
   | .none => true
-  | .els b => b.inert
-  | .elif _ thn rest => thn.inert && rest.inert
-def LBlock.inert : LBlock → Bool
+  | .els b => b.loopOK W
+  | .elif _ thn rest => thn.loopOK W && rest.loopOK W
+def LBlock.loopOK (W : Nat → Bool) : LBlock → Bool
   | .nil => true
-  | .cons s rest => s.inert && rest.inert
+  | .cons s rest => s.loopOK W && rest.loopOK W
 end
 
 mutual
-theorem LStmt.noAssign_inert : ∀ (s : LStmt), s.noAssign = true → s.inert = true
-  | .assign _ _, h => by simp [LStmt.noAssign] at h
+/-- side condition for stored-type guards (as `Stmt.ok`) -/
+def LStmt.ok (S : List (Nat × TName)) : LStmt → Bool
+  | .assign x _ => !(S.any fun p => p.1 == x)
+  | .probe _ _ => true
+  | .ite c thn rest => c.storedIn S && thn.ok S && rest.ok S
+  | .whileDo c b => c.storedIn S && b.ok S
+  | .whileTrue b => b.ok S
+  | .repeatUntil b c => c.storedIn S && b.ok S
+  | .forNum _ _ b => b.ok S
+  | .forIn _ b => b.ok S
+  | .breakIf c => c.storedIn S
+def LElse.ok (S : List (Nat × TName)) : LElse → Bool
+  | .none => true
+  | .els b => b.ok S
+  | .elif c thn rest => c.storedIn S && thn.ok S && rest.ok S
+def LBlock.ok (S : List (Nat × TName)) : LBlock → Bool
+  | .nil => true
+  | .cons s rest => s.ok S && rest.ok S
+end
+
+mutual
+theorem LStmt.assignsIn_loopOK : ∀ (s : LStmt), s.assignsIn W = true → s.loopOK W = true
+  | .assign _ _, _ => rfl
   | .probe _ _, _ => rfl
   | .ite _ thn rest, h => by
-    simp only [LStmt.noAssign, Bool.and_eq_true] at h
-    simp only [LStmt.inert, Bool.and_eq_true]
-    exact ⟨LBlock.noAssign_inert thn h.1, LElse.noAssign_inert rest h.2⟩
-  | .whileDo _ _, h => by simpa [LStmt.noAssign, LStmt.inert] using h
-  | .whileTrue _, h => by simpa [LStmt.noAssign, LStmt.inert] using h
-  | .repeatUntil _ _, h => by simpa [LStmt.noAssign, LStmt.inert] using h
-  | .forNum _ _ _, h => by simpa [LStmt.noAssign, LStmt.inert] using h
-  | .forIn _ _, h => by simpa [LStmt.noAssign, LStmt.inert] using h
+    simp only [LStmt.assignsIn, Bool.and_eq_true] at h
+    simp only [LStmt.loopOK, Bool.and_eq_true]
+    exact ⟨LBlock.assignsIn_loopOK thn h.1, LElse.assignsIn_loopOK rest h.2⟩
+  | .whileDo _ _, h => by simpa [LStmt.assignsIn, LStmt.loopOK] using h
+  | .whileTrue _, h => by simpa [LStmt.assignsIn, LStmt.loopOK] using h
+  | .repeatUntil _ _, h => by simpa [LStmt.assignsIn, LStmt.loopOK] using h
+  | .forNum _ _ _, h => by simpa [LStmt.assignsIn, LStmt.loopOK] using h
+  | .forIn _ _, h => by simpa [LStmt.assignsIn, LStmt.loopOK] using h
   | .breakIf _, _ => rfl
-theorem LElse.noAssign_inert : ∀ (e : LElse), e.noAssign = true → e.inert = true
+theorem LElse.assignsIn_loopOK : ∀ (e : LElse), e.assignsIn W = true → e.loopOK W = true
   | .none, _ => rfl
   | .els b, h => by
-    simp only [LElse.noAssign] at h
-    simp only [LElse.inert]
-    exact LBlock.noAssign_inert b h
+    simp only [LElse.assignsIn] at h
+    simp only [LElse.loopOK]
+    exact LBlock.assignsIn_loopOK b h
   | .elif _ thn rest, h => by
-    simp only [LElse.noAssign, Bool.and_eq_true] at h
-    simp only [LElse.inert, Bool.and_eq_true]
-    exact ⟨LBlock.noAssign_inert thn h.1, LElse.noAssign_inert rest h.2⟩
-theorem LBlock.noAssign_inert : ∀ (b : LBlock), b.noAssign = true → b.inert = true
+    simp only [LElse.assignsIn, Bool.and_eq_true] at h
+    simp only [LElse.loopOK, Bool.and_eq_true]
+    exact ⟨LBlock.assignsIn_loopOK thn h.1, LElse.assignsIn_loopOK rest h.2⟩
+theorem LBlock.assignsIn_loopOK : ∀ (b : LBlock), b.assignsIn W = true → b.loopOK W = true
   | .nil, _ => rfl
   | .cons s rest, h => by
-    simp only [LBlock.noAssign, Bool.and_eq_true] at h
-    simp only [LBlock.inert, Bool.and_eq_true]
-    exact ⟨LStmt.noAssign_inert s h.1, LBlock.noAssign_inert rest h.2⟩
+    simp only [LBlock.assignsIn, Bool.and_eq_true] at h
+    simp only [LBlock.loopOK, Bool.and_eq_true]
+    exact ⟨LStmt.assignsIn_loopOK s h.1, LBlock.assignsIn_loopOK rest h.2⟩
 end
 
-/-! ### statements without assignments leave the environment unchanged -/
+/-! ### a statement that assigns only variables of `W` leaves every other variable unchanged -/
+
+/-- `ρ'` agrees with `ρ` outside `W` (and has the same length) -/
+def Agree (W : Nat → Bool) (ρ' ρ : Env) : Prop := (∀ x, W x = false → ρ'.get x = ρ.get x) ∧ ρ'.length = ρ.length
+
+theorem Agree.refl (ρ : Env) : Agree W ρ ρ := ⟨fun _ _ => rfl, rfl⟩
+
+theorem Agree.trans {ρ1 ρ2 ρ3 : Env} (h12 : Agree W ρ2 ρ1) (h23 : Agree W ρ3 ρ2) : Agree W ρ3 ρ1 :=
+  ⟨fun x hx => (h23.1 x hx).trans (h12.1 x hx), h23.2.trans h12.2⟩
+
+theorem soundSt_agree {ρ ρ' : Env} {s : St} (ha : Agree W ρ' ρ) (h : SoundSt W ρ s) : SoundSt W ρ' s := by
+  intro x hx m
+  rw [ha.1 x hx]
+  exact h x hx m
+
+theorem soundPt_agree {ρ ρ' : Env} {p : Pt} (ha : Agree W ρ' ρ) (h : SoundPt W ρ p) : SoundPt W ρ' p := by
+  cases p with
+  | node s => exact soundSt_agree ha h
+  | label ins =>
+    obtain ⟨s, hs, hss⟩ := h
+    exact ⟨s, hs, soundSt_agree ha hss⟩
 
 mutual
-theorem LStmt.exec_env : ∀ (fuel : Nat) (ρ : Env) (s : LStmt) (r : Out), s.noAssign = true →
-    LStmt.exec fuel ρ s = some r → r.env = ρ
+theorem LStmt.exec_agree : ∀ (fuel : Nat) (ρ : Env) (s : LStmt) (r : Out), s.assignsIn W = true →
+    LStmt.exec fuel ρ s = some r → Agree W r.env ρ
   | 0, _, _, _, _, h => by simp [LStmt.exec] at h
-  | fuel + 1, ρ, .assign _ _, _, hn, _ => by simp [LStmt.noAssign] at hn
-  | fuel + 1, ρ, .probe _ _, r, _, h => by simp only [LStmt.exec, Option.some.injEq] at h; subst h; rfl
-  | fuel + 1, ρ, .breakIf _, r, _, h => by simp only [LStmt.exec, Option.some.injEq] at h; subst h; rfl
+  | fuel + 1, ρ, .assign y l, r, hn, h => by
+    simp only [LStmt.exec, Option.some.injEq] at h
+    subst h
+    simp only [LStmt.assignsIn] at hn
+    refine ⟨fun x hx => ?_, by simp⟩
+    rw [env_get_set]
+    have : ¬ x = y := by intro he; subst he; rw [hn] at hx; cases hx
+    simp [this]
+  | fuel + 1, ρ, .probe _ _, r, _, h => by
+    simp only [LStmt.exec, Option.some.injEq] at h; subst h; exact Agree.refl ρ
+  | fuel + 1, ρ, .breakIf _, r, _, h => by
+    simp only [LStmt.exec, Option.some.injEq] at h; subst h; exact Agree.refl ρ
   | fuel + 1, ρ, .ite c thn rest, r, hn, h => by
-    simp only [LStmt.noAssign, Bool.and_eq_true] at hn
+    simp only [LStmt.assignsIn, Bool.and_eq_true] at hn
     simp only [LStmt.exec] at h
     split at h
-    · exact LBlock.exec_env fuel ρ thn r hn.1 h
-    · exact LElse.exec_env fuel ρ rest r hn.2 h
+    · exact LBlock.exec_agree fuel ρ thn r hn.1 h
+    · exact LElse.exec_agree fuel ρ rest r hn.2 h
   | fuel + 1, ρ, .whileDo c body, r, hn, h => by
     simp only [LStmt.exec] at h
     split at h
     · cases h1 : LBlock.exec fuel ρ body with
       | none => simp [h1] at h
       | some r1 =>
-        have e1 := LBlock.exec_env fuel ρ body r1 (by simpa [LStmt.noAssign] using hn) h1
+        have e1 := LBlock.exec_agree fuel ρ body r1 (by simpa [LStmt.assignsIn] using hn) h1
         simp only [h1] at h
         split at h
         · simp only [Option.some.injEq] at h; subst h; exact e1
@@ -107,15 +159,14 @@ theorem LStmt.exec_env : ∀ (fuel : Nat) (ρ : Env) (s : LStmt) (r : Out), s.no
           | some r2 =>
             simp only [h2, Option.some.injEq] at h
             subst h
-            have := LStmt.exec_env fuel r1.env (.whileDo c body) r2 hn h2
-            simp only [this, e1]
-    · simp only [Option.some.injEq] at h; subst h; rfl
+            exact e1.trans (LStmt.exec_agree fuel r1.env (.whileDo c body) r2 hn h2)
+    · simp only [Option.some.injEq] at h; subst h; exact Agree.refl ρ
   | fuel + 1, ρ, .whileTrue body, r, hn, h => by
     simp only [LStmt.exec] at h
     cases h1 : LBlock.exec fuel ρ body with
     | none => simp [h1] at h
     | some r1 =>
-      have e1 := LBlock.exec_env fuel ρ body r1 (by simpa [LStmt.noAssign] using hn) h1
+      have e1 := LBlock.exec_agree fuel ρ body r1 (by simpa [LStmt.assignsIn] using hn) h1
       simp only [h1] at h
       split at h
       · simp only [Option.some.injEq] at h; subst h; exact e1
@@ -124,14 +175,13 @@ theorem LStmt.exec_env : ∀ (fuel : Nat) (ρ : Env) (s : LStmt) (r : Out), s.no
         | some r2 =>
           simp only [h2, Option.some.injEq] at h
           subst h
-          have := LStmt.exec_env fuel r1.env (.whileTrue body) r2 hn h2
-          simp only [this, e1]
+          exact e1.trans (LStmt.exec_agree fuel r1.env (.whileTrue body) r2 hn h2)
   | fuel + 1, ρ, .repeatUntil body c, r, hn, h => by
     simp only [LStmt.exec] at h
     cases h1 : LBlock.exec fuel ρ body with
     | none => simp [h1] at h
     | some r1 =>
-      have e1 := LBlock.exec_env fuel ρ body r1 (by simpa [LStmt.noAssign] using hn) h1
+      have e1 := LBlock.exec_agree fuel ρ body r1 (by simpa [LStmt.assignsIn] using hn) h1
       simp only [h1] at h
       split at h
       · simp only [Option.some.injEq] at h; subst h; exact e1
@@ -142,38 +192,39 @@ theorem LStmt.exec_env : ∀ (fuel : Nat) (ρ : Env) (s : LStmt) (r : Out), s.no
           | some r2 =>
             simp only [h2, Option.some.injEq] at h
             subst h
-            have := LStmt.exec_env fuel r1.env (.repeatUntil body c) r2 hn h2
-            simp only [this, e1]
+            exact e1.trans (LStmt.exec_agree fuel r1.env (.repeatUntil body c) r2 hn h2)
   | fuel + 1, ρ, .forNum a b body, r, hn, h => by
     simp only [LStmt.exec] at h
-    exact LBlock.execN_env fuel _ ρ body r (by simpa [LStmt.noAssign] using hn) h
+    exact LBlock.execN_agree fuel _ ρ body r (by simpa [LStmt.assignsIn] using hn) h
   | fuel + 1, ρ, .forIn n body, r, hn, h => by
     simp only [LStmt.exec] at h
-    exact LBlock.execN_env fuel _ ρ body r (by simpa [LStmt.noAssign] using hn) h
-theorem LElse.exec_env : ∀ (fuel : Nat) (ρ : Env) (e : LElse) (r : Out), e.noAssign = true →
-    LElse.exec fuel ρ e = some r → r.env = ρ
+    exact LBlock.execN_agree fuel _ ρ body r (by simpa [LStmt.assignsIn] using hn) h
+theorem LElse.exec_agree : ∀ (fuel : Nat) (ρ : Env) (e : LElse) (r : Out), e.assignsIn W = true →
+    LElse.exec fuel ρ e = some r → Agree W r.env ρ
   | 0, _, _, _, _, h => by simp [LElse.exec] at h
-  | fuel + 1, ρ, .none, r, _, h => by simp only [LElse.exec, Option.some.injEq] at h; subst h; rfl
+  | fuel + 1, ρ, .none, r, _, h => by
+    simp only [LElse.exec, Option.some.injEq] at h; subst h; exact Agree.refl ρ
   | fuel + 1, ρ, .els b, r, hn, h => by
     simp only [LElse.exec] at h
-    exact LBlock.exec_env fuel ρ b r (by simpa [LElse.noAssign] using hn) h
+    exact LBlock.exec_agree fuel ρ b r (by simpa [LElse.assignsIn] using hn) h
   | fuel + 1, ρ, .elif c thn rest, r, hn, h => by
-    simp only [LElse.noAssign, Bool.and_eq_true] at hn
+    simp only [LElse.assignsIn, Bool.and_eq_true] at hn
     simp only [LElse.exec] at h
     split at h
-    · exact LBlock.exec_env fuel ρ thn r hn.1 h
-    · exact LElse.exec_env fuel ρ rest r hn.2 h
-theorem LBlock.exec_env : ∀ (fuel : Nat) (ρ : Env) (b : LBlock) (r : Out), b.noAssign = true →
-    LBlock.exec fuel ρ b = some r → r.env = ρ
+    · exact LBlock.exec_agree fuel ρ thn r hn.1 h
+    · exact LElse.exec_agree fuel ρ rest r hn.2 h
+theorem LBlock.exec_agree : ∀ (fuel : Nat) (ρ : Env) (b : LBlock) (r : Out), b.assignsIn W = true →
+    LBlock.exec fuel ρ b = some r → Agree W r.env ρ
   | 0, _, _, _, _, h => by simp [LBlock.exec] at h
-  | fuel + 1, ρ, .nil, r, _, h => by simp only [LBlock.exec, Option.some.injEq] at h; subst h; rfl
+  | fuel + 1, ρ, .nil, r, _, h => by
+    simp only [LBlock.exec, Option.some.injEq] at h; subst h; exact Agree.refl ρ
   | fuel + 1, ρ, .cons s rest, r, hn, h => by
-    simp only [LBlock.noAssign, Bool.and_eq_true] at hn
+    simp only [LBlock.assignsIn, Bool.and_eq_true] at hn
     simp only [LBlock.exec] at h
     cases h1 : LStmt.exec fuel ρ s with
     | none => simp [h1] at h
     | some r1 =>
-      have e1 := LStmt.exec_env fuel ρ s r1 hn.1 h1
+      have e1 := LStmt.exec_agree fuel ρ s r1 hn.1 h1
       simp only [h1] at h
       split at h
       · simp only [Option.some.injEq] at h; subst h; exact e1
@@ -182,18 +233,18 @@ theorem LBlock.exec_env : ∀ (fuel : Nat) (ρ : Env) (b : LBlock) (r : Out), b.
         | some r2 =>
           simp only [h2, Option.some.injEq] at h
           subst h
-          have := LBlock.exec_env fuel r1.env rest r2 hn.2 h2
-          simp only [this, e1]
-theorem LBlock.execN_env : ∀ (fuel n : Nat) (ρ : Env) (b : LBlock) (r : Out), b.noAssign = true →
-    LBlock.execN fuel n ρ b = some r → r.env = ρ
+          exact e1.trans (LBlock.exec_agree fuel r1.env rest r2 hn.2 h2)
+theorem LBlock.execN_agree : ∀ (fuel n : Nat) (ρ : Env) (b : LBlock) (r : Out), b.assignsIn W = true →
+    LBlock.execN fuel n ρ b = some r → Agree W r.env ρ
   | 0, _, _, _, _, _, h => by simp [LBlock.execN] at h
-  | fuel + 1, 0, ρ, b, r, _, h => by simp only [LBlock.execN, Option.some.injEq] at h; subst h; rfl
+  | fuel + 1, 0, ρ, b, r, _, h => by
+    simp only [LBlock.execN, Option.some.injEq] at h; subst h; exact Agree.refl ρ
   | fuel + 1, n + 1, ρ, b, r, hn, h => by
     simp only [LBlock.execN] at h
     cases h1 : LBlock.exec fuel ρ b with
     | none => simp [h1] at h
     | some r1 =>
-      have e1 := LBlock.exec_env fuel ρ b r1 hn h1
+      have e1 := LBlock.exec_agree fuel ρ b r1 hn h1
       simp only [h1] at h
       split at h
       · simp only [Option.some.injEq] at h; subst h; exact e1
@@ -202,8 +253,7 @@ theorem LBlock.execN_env : ∀ (fuel n : Nat) (ρ : Env) (b : LBlock) (r : Out),
         | some r2 =>
           simp only [h2, Option.some.injEq] at h
           subst h
-          have := LBlock.execN_env fuel n r1.env b r2 hn h2
-          simp only [this, e1]
+          exact e1.trans (LBlock.execN_agree fuel n r1.env b r2 hn h2)
 end
 
 /-! ### static well-formedness of every flow id produced -/
@@ -295,156 +345,154 @@ end
 /-! ### dynamic soundness, by induction on the fuel -/
 
 /-- after a statement: the flow id reached is sound — the enclosing loop's break list when a `break` propagates -/
-def Good (ρ : Env) (out : Pt) (brks : List Pt) : Bool → Prop
-  | true => ∃ p ∈ brks, SoundPt ρ p
-  | false => SoundPt ρ out
+def Good (W : Nat → Bool) (ρ : Env) (out : Pt) (brks : List Pt) : Bool → Prop
+  | true => ∃ p ∈ brks, SoundPt W ρ p
+  | false => SoundPt W ρ out
 
-def GoodE (ρ : Env) (outs : List Pt) (brks : List Pt) : Bool → Prop
-  | true => ∃ p ∈ brks, SoundPt ρ p
-  | false => ∃ p ∈ outs, SoundPt ρ p
+def GoodE (W : Nat → Bool) (ρ : Env) (outs : List Pt) (brks : List Pt) : Bool → Prop
+  | true => ∃ p ∈ brks, SoundPt W ρ p
+  | false => ∃ p ∈ outs, SoundPt W ρ p
 
-theorem ObsOK.append_same {o1 o2 : List Obs} {a : List AObs} (h1 : ObsOK o1 a) (h2 : ObsOK o2 a) :
-    ObsOK (o1 ++ o2) a := by
-  intro o ho
+theorem ObsOK.append_same {o1 o2 : List Obs} {a : List AObs} (h1 : ObsOK W o1 a) (h2 : ObsOK W o2 a) :
+    ObsOK W (o1 ++ o2) a := by
+  intro o ho hw
   rcases List.mem_append.mp ho with ho | ho
-  · exact h1 o ho
-  · exact h2 o ho
+  · exact h1 o ho hw
+  · exact h2 o ho hw
 
-theorem Good.brk_left {ρ : Env} {out : Pt} {b1 b2 : List Pt} {out' : Pt} (h : Good ρ out b1 true) :
-    Good ρ out' (b1 ++ b2) true := by
+theorem Good.brk_left {ρ : Env} {out : Pt} {b1 b2 : List Pt} {out' : Pt} (h : Good W ρ out b1 true) :
+    Good W ρ out' (b1 ++ b2) true := by
   obtain ⟨p, hp, hs⟩ := h
   exact ⟨p, List.mem_append.mpr (.inl hp), hs⟩
 
-theorem Good.brk_right {ρ : Env} {out : Pt} {b1 b2 : List Pt} {out' : Pt} (h : Good ρ out b2 true) :
-    Good ρ out' (b1 ++ b2) true := by
+theorem Good.brk_right {ρ : Env} {out : Pt} {b1 b2 : List Pt} {out' : Pt} (h : Good W ρ out b2 true) :
+    Good W ρ out' (b1 ++ b2) true := by
   obtain ⟨p, hp, hs⟩ := h
   exact ⟨p, List.mem_append.mpr (.inr hp), hs⟩
 
-theorem good_right {ρ : Env} {o2 : Pt} {b1 b2 : List Pt} {b : Bool} (h : Good ρ o2 b2 b) :
-    Good ρ o2 (b1 ++ b2) b := by
+theorem good_right {ρ : Env} {o2 : Pt} {b1 b2 : List Pt} {b : Bool} (h : Good W ρ o2 b2 b) :
+    Good W ρ o2 (b1 ++ b2) b := by
   cases b
   · exact h
   · exact Good.brk_right (out := o2) h
 
 theorem good_ite_then {ρ : Env} {out : Pt} {outs : List Pt} {cur : Pt} {b1 b2 : List Pt} {b : Bool}
-    (h : Good ρ out b1 b) : Good ρ (finishLabel (out :: outs) cur) (b1 ++ b2) b := by
+    (h : Good W ρ out b1 b) : Good W ρ (finishLabel (out :: outs) cur) (b1 ++ b2) b := by
   cases b
   · exact finishLabel_sound ⟨out, by simp, h⟩
   · exact Good.brk_left (out := out) h
 
 theorem good_ite_else {ρ : Env} {o : Pt} {outs : List Pt} {cur : Pt} {b1 b2 : List Pt} {b : Bool}
-    (h : GoodE ρ outs b2 b) : Good ρ (finishLabel (o :: outs) cur) (b1 ++ b2) b := by
+    (h : GoodE W ρ outs b2 b) : Good W ρ (finishLabel (o :: outs) cur) (b1 ++ b2) b := by
   cases b
   · obtain ⟨p, hp, hs⟩ := h; exact finishLabel_sound ⟨p, by simp [hp], hs⟩
   · obtain ⟨p, hp, hs⟩ := h; exact ⟨p, List.mem_append.mpr (.inr hp), hs⟩
 
 theorem goodE_then {ρ : Env} {out : Pt} {outs : List Pt} {b1 b2 : List Pt} {b : Bool}
-    (h : Good ρ out b1 b) : GoodE ρ (out :: outs) (b1 ++ b2) b := by
+    (h : Good W ρ out b1 b) : GoodE W ρ (out :: outs) (b1 ++ b2) b := by
   cases b
   · exact ⟨out, by simp, h⟩
   · obtain ⟨p, hp, hs⟩ := h; exact ⟨p, List.mem_append.mpr (.inl hp), hs⟩
 
 theorem goodE_else {ρ : Env} {o : Pt} {outs : List Pt} {b1 b2 : List Pt} {b : Bool}
-    (h : GoodE ρ outs b2 b) : GoodE ρ (o :: outs) (b1 ++ b2) b := by
+    (h : GoodE W ρ outs b2 b) : GoodE W ρ (o :: outs) (b1 ++ b2) b := by
   cases b
   · obtain ⟨p, hp, hs⟩ := h; exact ⟨p, by simp [hp], hs⟩
   · obtain ⟨p, hp, hs⟩ := h; exact ⟨p, List.mem_append.mpr (.inr hp), hs⟩
 
+/-- what the induction establishes for a finished statement -/
+structure Post (W : Nat → Bool) (S : List (Nat × TName)) (nv : Nat) (r : Out) (out : Pt) (brks : List Pt)
+    (aobs : List AObs) : Prop where
+  good : Good W r.env out brks r.broke
+  len : r.env.length = nv
+  stored : StoredOK S r.env
+  obs : ObsOK W r.obs aobs
+
 mutual
 theorem LStmt.sound (nv : Nat) (d : Nat → Atom) : ∀ (fuel : Nat) (s : LStmt) (cur : Pt) (ρ : Env) (r : Out),
-    s.inert = true → ρ.length = nv → WfPt cur → SoundPt ρ cur → LStmt.exec fuel ρ s = some r →
-    Good r.env (s.aexec nv d cur).out (s.aexec nv d cur).brks r.broke ∧ r.env.length = nv ∧
-      ObsOK r.obs (s.aexec nv d cur).obs
-  | 0, _, _, _, _, _, _, _, _, h => by simp [LStmt.exec] at h
-  | fuel + 1, .assign x l, cur, ρ, r, _, hl, hw, hs, h => by
+    s.loopOK W = true → s.ok S = true → ρ.length = nv → StoredOK S ρ → WfPt cur → SoundPt W ρ cur →
+    LStmt.exec fuel ρ s = some r →
+    Post W S nv r (s.aexec nv d cur).out (s.aexec nv d cur).brks (s.aexec nv d cur).obs
+  | 0, _, _, _, _, _, _, _, _, _, _, h => by simp [LStmt.exec] at h
+  | fuel + 1, .assign x l, cur, ρ, r, _, hok, hl, hst, hw, hs, h => by
+    simp only [LStmt.exec, Option.some.injEq] at h
+    subst h
+    simp only [LStmt.ok, Bool.not_eq_eq_eq_not, Bool.not_true] at hok
+    simp only [LStmt.aexec]
+    exact ⟨assignNode_sound hl hw hs, by simpa using hl, storedOK_set hst hok, ObsOK.nil⟩
+  | fuel + 1, .probe id x, cur, ρ, r, _, _, hl, hst, hw, hs, h => by
     simp only [LStmt.exec, Option.some.injEq] at h
     subst h
     simp only [LStmt.aexec]
-    exact ⟨assignNode_sound hl hw hs, by simpa using hl, ObsOK.nil⟩
-  | fuel + 1, .probe id x, cur, ρ, r, _, hl, hw, hs, h => by
+    exact ⟨passNode_sound hl hs, hl, hst, probe_obs hs⟩
+  | fuel + 1, .breakIf c, cur, ρ, r, _, hok, hl, hst, hw, hs, h => by
     simp only [LStmt.exec, Option.some.injEq] at h
     subst h
+    simp only [LStmt.ok] at hok
     simp only [LStmt.aexec]
-    refine ⟨passNode_sound hl hs, hl, ?_⟩
-    intro o ho
-    simp only [List.mem_cons, List.not_mem_nil, or_false] at ho
-    subst ho
-    exact ⟨cur.typeOf x, by simp, Res.has_intoType (res_has hs x .normal)⟩
-  | fuel + 1, .breakIf c, cur, ρ, r, _, hl, hw, hs, h => by
-    simp only [LStmt.exec, Option.some.injEq] at h
-    subst h
-    simp only [LStmt.aexec]
-    have hes := edges_sound nv c cur ρ hl hs
-    refine ⟨?_, hl, ObsOK.nil⟩
+    have hes := edges_sound (W := W) nv c cur ρ hl hst hok hs
+    refine ⟨?_, hl, hst, ObsOK.nil⟩
     cases hc : c.eval ρ
     · exact finishLabel_sound (hes.2 hc)
     · exact ⟨Pt.node (passNode nv (finishLabel (c.edges nv cur).1 cur)), by simp,
         passNode_sound hl (finishLabel_sound (d := cur) (hes.1 hc))⟩
-  | fuel + 1, .ite c thn rest, cur, ρ, r, hi, hl, hw, hs, h => by
-    simp only [LStmt.inert, Bool.and_eq_true] at hi
+  | fuel + 1, .ite c thn rest, cur, ρ, r, hi, hok, hl, hst, hw, hs, h => by
+    simp only [LStmt.loopOK, Bool.and_eq_true] at hi
+    simp only [LStmt.ok, Bool.and_eq_true] at hok
     simp only [LStmt.exec] at h
     simp only [LStmt.aexec]
     have hew := edges_wf nv c cur hw
-    have hes := edges_sound nv c cur ρ hl hs
+    have hes := edges_sound (W := W) nv c cur ρ hl hst hok.1.1 hs
     cases hc : c.eval ρ
     · simp only [hc, Bool.false_eq_true, ↓reduceIte] at h
-      obtain ⟨hg, hlen, hobs⟩ := LElse.sound nv d fuel rest cur _ ρ r hi.2 hl hw hew.2 (hes.2 hc) h
-      exact ⟨good_ite_else hg, hlen, hobs.right⟩
+      obtain ⟨hg, hlen, hst', hobs⟩ :=
+        LElse.sound nv d fuel rest cur _ ρ r hi.2 hok.2 hl hst hw hew.2 (hes.2 hc) h
+      exact ⟨good_ite_else hg, hlen, hst', hobs.right⟩
     · simp only [hc, ↓reduceIte] at h
-      obtain ⟨hg, hlen, hobs⟩ := LBlock.sound nv d fuel thn _ ρ r hi.1 hl (finishLabel_wf hew.1 hw)
-        (finishLabel_sound (d := cur) (hes.1 hc)) h
-      exact ⟨good_ite_then hg, hlen, hobs.left⟩
-  | fuel + 1, .whileDo c body, cur, ρ, r, hi, hl, hw, hs, h => by
-    have hna : body.noAssign = true := by simpa [LStmt.inert] using hi
-    have henv := LStmt.exec_env (fuel + 1) ρ (.whileDo c body) r (by simpa [LStmt.noAssign] using hna) h
+      obtain ⟨hg, hlen, hst', hobs⟩ := LBlock.sound nv d fuel thn _ ρ r hi.1 hok.1.2 hl hst
+        (finishLabel_wf hew.1 hw) (finishLabel_sound (d := cur) (hes.1 hc)) h
+      exact ⟨good_ite_then hg, hlen, hst', hobs.left⟩
+  | fuel + 1, .whileDo c body, cur, ρ, r, hi, hok, hl, hst, hw, hs, h => by
+    have hna : body.assignsIn W = true := by simpa [LStmt.loopOK] using hi
+    simp only [LStmt.ok, Bool.and_eq_true] at hok
+    have hag := LStmt.exec_agree (W := W) (fuel + 1) ρ (.whileDo c body) r (by simpa [LStmt.assignsIn] using hna) h
     simp only [LStmt.exec] at h
     simp only [LStmt.aexec]
     have hew := edges_wf nv c cur hw
-    have hes := edges_sound nv c cur ρ hl hs
-    refine ⟨?_, by rw [henv]; exact hl, ?_⟩
-    · have hb : r.broke = false := by
+    have hes := edges_sound (W := W) nv c cur ρ hl hst hok.1 hs
+    split at h
+    · rename_i hc
+      cases h1 : LBlock.exec fuel ρ body with
+      | none => simp [h1] at h
+      | some r1 =>
+        have e1 := LBlock.exec_agree (W := W) fuel ρ body r1 hna h1
+        obtain ⟨_, hl1, hst1, ho1⟩ := LBlock.sound nv d fuel body _ ρ r1 (LBlock.assignsIn_loopOK body hna) hok.2
+          hl hst (finishLabel_wf hew.1 hw) (finishLabel_sound (d := cur) (hes.1 hc)) h1
+        simp only [h1] at h
         split at h
-        · cases h1 : LBlock.exec fuel ρ body with
-          | none => simp [h1] at h
-          | some r1 =>
-            simp only [h1] at h
-            split at h
-            · simp only [Option.some.injEq] at h; subst h; rfl
-            · cases h2 : LStmt.exec fuel r1.env (.whileDo c body) with
-              | none => simp [h2] at h
-              | some r2 => simp only [h2, Option.some.injEq] at h; subst h; rfl
-        · simp only [Option.some.injEq] at h; subst h; rfl
-      rw [hb, henv]; exact hs
-    · split at h
-      · rename_i hc
-        cases h1 : LBlock.exec fuel ρ body with
-        | none => simp [h1] at h
-        | some r1 =>
-          have e1 := LBlock.exec_env fuel ρ body r1 hna h1
-          obtain ⟨_, _, ho1⟩ := LBlock.sound nv d fuel body _ ρ r1 (LBlock.noAssign_inert body hna) hl
-            (finishLabel_wf hew.1 hw) (finishLabel_sound (d := cur) (hes.1 hc)) h1
-          simp only [h1] at h
-          split at h
-          · simp only [Option.some.injEq] at h; subst h; exact ho1
-          · cases h2 : LStmt.exec fuel r1.env (.whileDo c body) with
-            | none => simp [h2] at h
-            | some r2 =>
-              simp only [h2, Option.some.injEq] at h
-              subst h
-              obtain ⟨_, _, ho2⟩ := LStmt.sound nv d fuel (.whileDo c body) cur r1.env r2 hi (by rw [e1]; exact hl) hw
-                (by rw [e1]; exact hs) h2
-              simp only [LStmt.aexec] at ho2
-              exact ho1.append_same ho2
-      · simp only [Option.some.injEq] at h; subst h; exact ObsOK.nil
-  | fuel + 1, .whileTrue body, cur, ρ, r, hi, hl, hw, hs, h => by
-    have hna : body.noAssign = true := by simpa [LStmt.inert] using hi
-    have henv := LStmt.exec_env (fuel + 1) ρ (.whileTrue body) r (by simpa [LStmt.noAssign] using hna) h
+        · simp only [Option.some.injEq] at h; subst h
+          exact ⟨soundPt_agree e1 hs, hl1, hst1, ho1⟩
+        · cases h2 : LStmt.exec fuel r1.env (.whileDo c body) with
+          | none => simp [h2] at h
+          | some r2 =>
+            simp only [h2, Option.some.injEq] at h
+            subst h
+            obtain ⟨_, hl2, hst2, ho2⟩ := LStmt.sound nv d fuel (.whileDo c body) cur r1.env r2 hi
+              (by simp [LStmt.ok, hok.1, hok.2]) hl1 hst1 hw (soundPt_agree e1 hs) h2
+            simp only [LStmt.aexec] at ho2
+            exact ⟨soundPt_agree hag hs, hl2, hst2, ho1.append_same ho2⟩
+    · simp only [Option.some.injEq] at h; subst h
+      exact ⟨hs, hl, hst, ObsOK.nil⟩
+  | fuel + 1, .whileTrue body, cur, ρ, r, hi, hok, hl, hst, hw, hs, h => by
+    have hna : body.assignsIn W = true := by simpa [LStmt.loopOK] using hi
+    simp only [LStmt.ok] at hok
     simp only [LStmt.exec] at h
     cases h1 : LBlock.exec fuel ρ body with
     | none => simp [h1] at h
     | some r1 =>
-      have e1 := LBlock.exec_env fuel ρ body r1 hna h1
-      obtain ⟨hg1, _, ho1⟩ := LBlock.sound nv d fuel body cur ρ r1 (LBlock.noAssign_inert body hna) hl hw hs h1
+      have e1 := LBlock.exec_agree (W := W) fuel ρ body r1 hna h1
+      obtain ⟨hg1, hl1, hst1, ho1⟩ := LBlock.sound nv d fuel body cur ρ r1 (LBlock.assignsIn_loopOK body hna) hok
+        hl hst hw hs h1
       simp only [h1] at h
       split at h
       · rename_i hbr
@@ -453,27 +501,29 @@ theorem LStmt.sound (nv : Nat) (d : Nat → Atom) : ∀ (fuel : Nat) (s : LStmt)
         simp only [LStmt.aexec]
         rw [hbr] at hg1
         obtain ⟨p, hp, hps⟩ := hg1
-        exact ⟨finishLabel_sound ⟨p, List.mem_append.mpr (.inl hp), hps⟩, by rw [e1]; exact hl, ho1⟩
+        exact ⟨finishLabel_sound ⟨p, List.mem_append.mpr (.inl hp), hps⟩, hl1, hst1, ho1⟩
       · cases h2 : LStmt.exec fuel r1.env (.whileTrue body) with
         | none => simp [h2] at h
         | some r2 =>
           simp only [h2, Option.some.injEq] at h
           subst h
-          obtain ⟨hg2, hl2, ho2⟩ := LStmt.sound nv d fuel (.whileTrue body) cur r1.env r2 hi (by rw [e1]; exact hl) hw
-            (by rw [e1]; exact hs) h2
+          obtain ⟨hg2, hl2, hst2, ho2⟩ := LStmt.sound nv d fuel (.whileTrue body) cur r1.env r2 hi
+            (by simpa [LStmt.ok] using hok) hl1 hst1 hw (soundPt_agree e1 hs) h2
           simp only [LStmt.aexec] at hg2 ho2 ⊢
-          refine ⟨?_, hl2, ho1.append_same ho2⟩
+          refine ⟨?_, hl2, hst2, ho1.append_same ho2⟩
           cases hb2 : r2.broke
           · rw [hb2] at hg2; exact hg2
           · rw [hb2] at hg2; obtain ⟨p, hp, _⟩ := hg2; simp at hp
-  | fuel + 1, .repeatUntil body c, cur, ρ, r, hi, hl, hw, hs, h => by
-    have hna : body.noAssign = true := by simpa [LStmt.inert] using hi
+  | fuel + 1, .repeatUntil body c, cur, ρ, r, hi, hok, hl, hst, hw, hs, h => by
+    have hna : body.assignsIn W = true := by simpa [LStmt.loopOK] using hi
+    simp only [LStmt.ok, Bool.and_eq_true] at hok
     simp only [LStmt.exec] at h
     cases h1 : LBlock.exec fuel ρ body with
     | none => simp [h1] at h
     | some r1 =>
-      have e1 := LBlock.exec_env fuel ρ body r1 hna h1
-      obtain ⟨hg1, hl1, ho1⟩ := LBlock.sound nv d fuel body cur ρ r1 (LBlock.noAssign_inert body hna) hl hw hs h1
+      have e1 := LBlock.exec_agree (W := W) fuel ρ body r1 hna h1
+      obtain ⟨hg1, hl1, hst1, ho1⟩ := LBlock.sound nv d fuel body cur ρ r1 (LBlock.assignsIn_loopOK body hna) hok.2
+        hl hst hw hs h1
       simp only [h1] at h
       split at h
       · rename_i hbr
@@ -482,114 +532,120 @@ theorem LStmt.sound (nv : Nat) (d : Nat → Atom) : ∀ (fuel : Nat) (s : LStmt)
         simp only [LStmt.aexec]
         rw [hbr] at hg1
         obtain ⟨p, hp, hps⟩ := hg1
-        exact ⟨finishLabel_sound ⟨p, List.mem_append.mpr (.inl hp), hps⟩, hl1, ho1⟩
+        exact ⟨finishLabel_sound ⟨p, List.mem_append.mpr (.inl hp), hps⟩, hl1, hst1, ho1⟩
       · rename_i hbr
         have hbf : r1.broke = false := by simpa using hbr
         rw [hbf] at hg1
-        have hes := edges_sound nv c (body.aexec nv d cur).out r1.env hl1 hg1
+        have hes := edges_sound (W := W) nv c (body.aexec nv d cur).out r1.env hl1 hst1 hok.1 hg1
         split at h
         · rename_i hc
           simp only [Option.some.injEq] at h
           subst h
           simp only [LStmt.aexec]
           obtain ⟨p, hp, hps⟩ := hes.1 hc
-          exact ⟨finishLabel_sound ⟨p, List.mem_append.mpr (.inr hp), hps⟩, hl1, ho1⟩
+          exact ⟨finishLabel_sound ⟨p, List.mem_append.mpr (.inr hp), hps⟩, hl1, hst1, ho1⟩
         · cases h2 : LStmt.exec fuel r1.env (.repeatUntil body c) with
           | none => simp [h2] at h
           | some r2 =>
             simp only [h2, Option.some.injEq] at h
             subst h
-            obtain ⟨hg2, hl2, ho2⟩ := LStmt.sound nv d fuel (.repeatUntil body c) cur r1.env r2 hi hl1 hw
-              (by rw [e1]; exact hs) h2
+            obtain ⟨hg2, hl2, hst2, ho2⟩ := LStmt.sound nv d fuel (.repeatUntil body c) cur r1.env r2 hi
+              (by simp [LStmt.ok, hok.1, hok.2]) hl1 hst1 hw (soundPt_agree e1 hs) h2
             simp only [LStmt.aexec] at hg2 ho2 ⊢
-            refine ⟨?_, hl2, ho1.append_same ho2⟩
+            refine ⟨?_, hl2, hst2, ho1.append_same ho2⟩
             cases hb2 : r2.broke
             · rw [hb2] at hg2; exact hg2
             · rw [hb2] at hg2; obtain ⟨p, hp, _⟩ := hg2; simp at hp
-  | fuel + 1, .forNum a b body, cur, ρ, r, hi, hl, hw, hs, h => by
-    have hna : body.noAssign = true := by simpa [LStmt.inert] using hi
+  | fuel + 1, .forNum a b body, cur, ρ, r, hi, hok, hl, hst, hw, hs, h => by
+    have hna : body.assignsIn W = true := by simpa [LStmt.loopOK] using hi
+    simp only [LStmt.ok] at hok
     simp only [LStmt.exec] at h
-    obtain ⟨henv, hbr, hobs, hlast⟩ := LBlock.soundN nv d fuel (b + 1 - a) body (.node (passNode nv cur)) ρ r hna hl
-      (passNode_wf hw) (passNode_sound hl hs) h
+    obtain ⟨hag, hbr, hl', hst', hobs, hlast⟩ := LBlock.soundN nv d fuel (b + 1 - a) body
+      (.node (passNode nv cur)) ρ r hna hok hl hst (passNode_wf hw) (passNode_sound hl hs) h
     simp only [LStmt.aexec]
     split
     · rename_i hc
       simp only [Bool.and_eq_true, decide_eq_true_eq] at hc
-      refine ⟨?_, by rw [henv]; exact hl, hobs⟩
-      rw [hbr, henv]
+      refine ⟨?_, hl', hst', hobs⟩
+      rw [hbr]
       rcases hlast (by omega) with ⟨p, hp, hps⟩ | hps
       · exact finishLabel_sound ⟨p, List.mem_append.mpr (.inl hp), hps⟩
       · exact finishLabel_sound ⟨_, List.mem_append.mpr (.inr (by simp)), hps⟩
-    · refine ⟨?_, by rw [henv]; exact hl, hobs⟩
-      rw [hbr, henv]; exact hs
-  | fuel + 1, .forIn n body, cur, ρ, r, hi, hl, hw, hs, h => by
-    have hna : body.noAssign = true := by simpa [LStmt.inert] using hi
+    · refine ⟨?_, hl', hst', hobs⟩
+      rw [hbr]; exact soundPt_agree hag hs
+  | fuel + 1, .forIn n body, cur, ρ, r, hi, hok, hl, hst, hw, hs, h => by
+    have hna : body.assignsIn W = true := by simpa [LStmt.loopOK] using hi
+    simp only [LStmt.ok] at hok
     simp only [LStmt.exec] at h
-    obtain ⟨henv, hbr, hobs, _⟩ := LBlock.soundN nv d fuel n body cur ρ r hna hl hw hs h
+    obtain ⟨hag, hbr, hl', hst', hobs, _⟩ := LBlock.soundN nv d fuel n body cur ρ r hna hok hl hst hw hs h
     simp only [LStmt.aexec]
-    refine ⟨?_, by rw [henv]; exact hl, hobs⟩
-    rw [hbr, henv]; exact hs
+    refine ⟨?_, hl', hst', hobs⟩
+    rw [hbr]; exact soundPt_agree hag hs
 theorem LElse.sound (nv : Nat) (d : Nat → Atom) : ∀ (fuel : Nat) (e : LElse) (cur : Pt) (ins : List Pt) (ρ : Env)
-    (r : Out), e.inert = true → ρ.length = nv → WfPt cur → (∀ p ∈ ins, WfPt p) → (∃ p ∈ ins, SoundPt ρ p) →
-    LElse.exec fuel ρ e = some r →
-    GoodE r.env (e.aexec nv d cur ins).1 (e.aexec nv d cur ins).2.2 r.broke ∧ r.env.length = nv ∧
-      ObsOK r.obs (e.aexec nv d cur ins).2.1
-  | 0, _, _, _, _, _, _, _, _, _, _, h => by simp [LElse.exec] at h
-  | fuel + 1, .none, cur, ins, ρ, r, _, hl, hw, hwi, hs, h => by
+    (r : Out), e.loopOK W = true → e.ok S = true → ρ.length = nv → StoredOK S ρ → WfPt cur →
+    (∀ p ∈ ins, WfPt p) → (∃ p ∈ ins, SoundPt W ρ p) → LElse.exec fuel ρ e = some r →
+    GoodE W r.env (e.aexec nv d cur ins).1 (e.aexec nv d cur ins).2.2 r.broke ∧ r.env.length = nv ∧
+      StoredOK S r.env ∧ ObsOK W r.obs (e.aexec nv d cur ins).2.1
+  | 0, _, _, _, _, _, _, _, _, _, _, _, _, h => by simp [LElse.exec] at h
+  | fuel + 1, .none, cur, ins, ρ, r, _, _, hl, hst, hw, hwi, hs, h => by
     simp only [LElse.exec, Option.some.injEq] at h
     subst h
     simp only [LElse.aexec]
-    exact ⟨⟨finishLabel ins cur, by simp, finishLabel_sound hs⟩, hl, ObsOK.nil⟩
-  | fuel + 1, .els b, cur, ins, ρ, r, hi, hl, hw, hwi, hs, h => by
+    exact ⟨⟨finishLabel ins cur, by simp, finishLabel_sound hs⟩, hl, hst, ObsOK.nil⟩
+  | fuel + 1, .els b, cur, ins, ρ, r, hi, hok, hl, hst, hw, hwi, hs, h => by
     simp only [LElse.exec] at h
     simp only [LElse.aexec]
-    obtain ⟨hg, hlen, hobs⟩ := LBlock.sound nv d fuel b _ ρ r (by simpa [LElse.inert] using hi) hl
-      (finishLabel_wf hwi hw) (finishLabel_sound (d := cur) hs) h
-    refine ⟨?_, hlen, hobs⟩
+    obtain ⟨hg, hlen, hst', hobs⟩ := LBlock.sound nv d fuel b _ ρ r (by simpa [LElse.loopOK] using hi)
+      (by simpa [LElse.ok] using hok) hl hst (finishLabel_wf hwi hw) (finishLabel_sound (d := cur) hs) h
+    refine ⟨?_, hlen, hst', hobs⟩
     cases hb : r.broke
     · rw [hb] at hg; exact ⟨_, by simp, hg⟩
     · rw [hb] at hg; exact hg
-  | fuel + 1, .elif c thn rest, cur, ins, ρ, r, hi, hl, hw, hwi, hs, h => by
-    simp only [LElse.inert, Bool.and_eq_true] at hi
+  | fuel + 1, .elif c thn rest, cur, ins, ρ, r, hi, hok, hl, hst, hw, hwi, hs, h => by
+    simp only [LElse.loopOK, Bool.and_eq_true] at hi
+    simp only [LElse.ok, Bool.and_eq_true] at hok
     simp only [LElse.exec] at h
     simp only [LElse.aexec]
     have hpw := finishLabel_wf hwi hw
     have hps := finishLabel_sound (d := cur) hs
     have hew := edges_wf nv c _ hpw
-    have hes := edges_sound nv c _ ρ hl hps
+    have hes := edges_sound (W := W) nv c _ ρ hl hst hok.1.1 hps
     cases hc : c.eval ρ
     · simp only [hc, Bool.false_eq_true, ↓reduceIte] at h
-      obtain ⟨hg, hlen, hobs⟩ := LElse.sound nv d fuel rest cur _ ρ r hi.2 hl hw hew.2 (hes.2 hc) h
-      exact ⟨goodE_else hg, hlen, hobs.right⟩
+      obtain ⟨hg, hlen, hst', hobs⟩ :=
+        LElse.sound nv d fuel rest cur _ ρ r hi.2 hok.2 hl hst hw hew.2 (hes.2 hc) h
+      exact ⟨goodE_else hg, hlen, hst', hobs.right⟩
     · simp only [hc, ↓reduceIte] at h
-      obtain ⟨hg, hlen, hobs⟩ := LBlock.sound nv d fuel thn _ ρ r hi.1 hl (finishLabel_wf hew.1 hw)
-        (finishLabel_sound (d := cur) (hes.1 hc)) h
-      exact ⟨goodE_then hg, hlen, hobs.left⟩
+      obtain ⟨hg, hlen, hst', hobs⟩ := LBlock.sound nv d fuel thn _ ρ r hi.1 hok.1.2 hl hst
+        (finishLabel_wf hew.1 hw) (finishLabel_sound (d := cur) (hes.1 hc)) h
+      exact ⟨goodE_then hg, hlen, hst', hobs.left⟩
 theorem LBlock.sound (nv : Nat) (d : Nat → Atom) : ∀ (fuel : Nat) (b : LBlock) (cur : Pt) (ρ : Env) (r : Out),
-    b.inert = true → ρ.length = nv → WfPt cur → SoundPt ρ cur → LBlock.exec fuel ρ b = some r →
-    Good r.env (b.aexec nv d cur).out (b.aexec nv d cur).brks r.broke ∧ r.env.length = nv ∧
-      ObsOK r.obs (b.aexec nv d cur).obs
-  | 0, _, _, _, _, _, _, _, _, h => by simp [LBlock.exec] at h
-  | fuel + 1, .nil, cur, ρ, r, _, hl, hw, hs, h => by
+    b.loopOK W = true → b.ok S = true → ρ.length = nv → StoredOK S ρ → WfPt cur → SoundPt W ρ cur →
+    LBlock.exec fuel ρ b = some r →
+    Post W S nv r (b.aexec nv d cur).out (b.aexec nv d cur).brks (b.aexec nv d cur).obs
+  | 0, _, _, _, _, _, _, _, _, _, _, h => by simp [LBlock.exec] at h
+  | fuel + 1, .nil, cur, ρ, r, _, _, hl, hst, hw, hs, h => by
     simp only [LBlock.exec, Option.some.injEq] at h
     subst h
     simp only [LBlock.aexec]
-    exact ⟨hs, hl, ObsOK.nil⟩
-  | fuel + 1, .cons s rest, cur, ρ, r, hi, hl, hw, hs, h => by
-    simp only [LBlock.inert, Bool.and_eq_true] at hi
+    exact ⟨hs, hl, hst, ObsOK.nil⟩
+  | fuel + 1, .cons s rest, cur, ρ, r, hi, hok, hl, hst, hw, hs, h => by
+    simp only [LBlock.loopOK, Bool.and_eq_true] at hi
+    simp only [LBlock.ok, Bool.and_eq_true] at hok
     simp only [LBlock.exec] at h
     simp only [LBlock.aexec]
     cases h1 : LStmt.exec fuel ρ s with
     | none => simp [h1] at h
     | some r1 =>
-      obtain ⟨hg1, hl1, ho1⟩ := LStmt.sound nv d fuel s cur ρ r1 hi.1 hl hw hs h1
+      obtain ⟨hg1, hl1, hst1, ho1⟩ := LStmt.sound nv d fuel s cur ρ r1 hi.1 hok.1 hl hst hw hs h1
       simp only [h1] at h
       split at h
       · rename_i hbr
         simp only [Option.some.injEq] at h
         subst h
+        refine ⟨?_, hl1, hst1, ho1.left⟩
         rw [hbr] at hg1 ⊢
-        exact ⟨Good.brk_left (out := (s.aexec nv d cur).out) hg1, hl1, ho1.left⟩
+        exact Good.brk_left (out := (s.aexec nv d cur).out) hg1
       · rename_i hbr
         have hbf : r1.broke = false := by simpa using hbr
         rw [hbf] at hg1
@@ -598,46 +654,57 @@ theorem LBlock.sound (nv : Nat) (d : Nat → Atom) : ∀ (fuel : Nat) (b : LBloc
         | some r2 =>
           simp only [h2, Option.some.injEq] at h
           subst h
-          obtain ⟨hg2, hl2, ho2⟩ := LBlock.sound nv d fuel rest _ r1.env r2 hi.2 hl1
+          obtain ⟨hg2, hl2, hst2, ho2⟩ := LBlock.sound nv d fuel rest _ r1.env r2 hi.2 hok.2 hl1 hst1
             (LStmt.aexec_wf nv d s cur hw).1 hg1 h2
-          exact ⟨good_right hg2, hl2, ho1.append ho2⟩
+          exact ⟨good_right hg2, hl2, hst2, ho1.append ho2⟩
 theorem LBlock.soundN (nv : Nat) (d : Nat → Atom) : ∀ (fuel n : Nat) (body : LBlock) (cur : Pt) (ρ : Env) (r : Out),
-    body.noAssign = true → ρ.length = nv → WfPt cur → SoundPt ρ cur → LBlock.execN fuel n ρ body = some r →
-    r.env = ρ ∧ r.broke = false ∧ ObsOK r.obs (body.aexec nv d cur).obs ∧
-      (0 < n → (∃ p ∈ (body.aexec nv d cur).brks, SoundPt ρ p) ∨ SoundPt ρ (body.aexec nv d cur).out)
-  | 0, _, _, _, _, _, _, _, _, _, h => by simp [LBlock.execN] at h
-  | fuel + 1, 0, body, cur, ρ, r, _, _, _, _, h => by
+    body.assignsIn W = true → body.ok S = true → ρ.length = nv → StoredOK S ρ → WfPt cur → SoundPt W ρ cur →
+    LBlock.execN fuel n ρ body = some r →
+    Agree W r.env ρ ∧ r.broke = false ∧ r.env.length = nv ∧ StoredOK S r.env ∧
+      ObsOK W r.obs (body.aexec nv d cur).obs ∧
+      (0 < n → (∃ p ∈ (body.aexec nv d cur).brks, SoundPt W r.env p) ∨ SoundPt W r.env (body.aexec nv d cur).out)
+  | 0, _, _, _, _, _, _, _, _, _, _, _, h => by simp [LBlock.execN] at h
+  | fuel + 1, 0, body, cur, ρ, r, _, _, hl, hst, _, _, h => by
     simp only [LBlock.execN, Option.some.injEq] at h
     subst h
-    exact ⟨rfl, rfl, ObsOK.nil, fun h => absurd h (by omega)⟩
-  | fuel + 1, n + 1, body, cur, ρ, r, hna, hl, hw, hs, h => by
+    exact ⟨Agree.refl ρ, rfl, hl, hst, ObsOK.nil, fun h => absurd h (by omega)⟩
+  | fuel + 1, n + 1, body, cur, ρ, r, hna, hok, hl, hst, hw, hs, h => by
     simp only [LBlock.execN] at h
     cases h1 : LBlock.exec fuel ρ body with
     | none => simp [h1] at h
     | some r1 =>
-      have e1 := LBlock.exec_env fuel ρ body r1 hna h1
-      obtain ⟨hg1, _, ho1⟩ := LBlock.sound nv d fuel body cur ρ r1 (LBlock.noAssign_inert body hna) hl hw hs h1
+      have e1 := LBlock.exec_agree (W := W) fuel ρ body r1 hna h1
+      obtain ⟨hg1, hl1, hst1, ho1⟩ := LBlock.sound nv d fuel body cur ρ r1 (LBlock.assignsIn_loopOK body hna) hok
+        hl hst hw hs h1
       simp only [h1] at h
       split at h
       · rename_i hbr
         simp only [Option.some.injEq] at h
         subst h
-        rw [hbr, e1] at hg1
-        exact ⟨e1, rfl, ho1, fun _ => .inl hg1⟩
+        rw [hbr] at hg1
+        exact ⟨e1, rfl, hl1, hst1, ho1, fun _ => .inl hg1⟩
       · rename_i hbr
         have hbf : r1.broke = false := by simpa using hbr
-        rw [hbf, e1] at hg1
+        rw [hbf] at hg1
         cases h2 : LBlock.execN fuel n r1.env body with
         | none => simp [h2] at h
         | some r2 =>
           simp only [h2, Option.some.injEq] at h
           subst h
-          obtain ⟨e2, _, ho2, hlast⟩ := LBlock.soundN nv d fuel n body cur r1.env r2 hna (by rw [e1]; exact hl) hw
-            (by rw [e1]; exact hs) h2
-          refine ⟨by rw [e2, e1], rfl, ho1.append_same ho2, fun _ => ?_⟩
+          obtain ⟨e2, _, hl2, hst2, ho2, hlast⟩ := LBlock.soundN nv d fuel n body cur r1.env r2 hna hok hl1 hst1 hw
+            (soundPt_agree e1 hs) h2
+          refine ⟨e1.trans e2, rfl, hl2, hst2, ho1.append_same ho2, fun _ => ?_⟩
           by_cases hn : 0 < n
-          · rw [e1] at hlast; exact hlast hn
-          · exact .inr hg1
+          · exact hlast hn
+          · -- the iteration just executed was the last one
+            have hn0 : n = 0 := by omega
+            subst hn0
+            cases fuel with
+            | zero => simp [LBlock.execN] at h2
+            | succ f =>
+              simp only [LBlock.execN, Option.some.injEq] at h2
+              subst h2
+              exact .inr hg1
 end
 
 end Flow
